@@ -23,7 +23,9 @@ package main
 import (
 	"fmt"
 	"go/ast"
+	"go/parser"
 	"go/token"
+	"path/filepath"
 	"strconv"
 	"strings"
 )
@@ -375,9 +377,21 @@ func serEscaper(f *ast.File, fd *ast.FuncDecl) ([]string, string, error) {
 	return defs, strings.Join(gotext, " | "), nil
 }
 
+func serFile(repo string, files map[string]*ast.File, name string) (*ast.File, error) {
+	if f := files[name]; f != nil {
+		return f, nil
+	}
+	f, err := parser.ParseFile(fset, filepath.Join(repo, name), nil, 0)
+	if err != nil {
+		return nil, err
+	}
+	files[name] = f
+	return f, nil
+}
+
 func serExtras(repo string, files map[string]*ast.File) (map[string][]matched, []string) {
 	out := map[string][]matched{}
-	f, err := codecFile(repo, files, "message.go")
+	f, err := serFile(repo, files, "message.go")
 	if err != nil {
 		return out, []string{"anchor g_serialize_uses_json_marshal (message.go): " + err.Error()}
 	}
